@@ -93,7 +93,7 @@ TEXT = {
  },
  "C18": {
   "technique": "exhaustive enumeration of rule-relevant table feature vectors against a decision list written from the property text (reference model), plus placement invariance and an API-level sample",
-  "level": "Exploration, exhaustive over the 5,832,000-vector product in the thorough tier (quick: a seed-rotated hash slice), 6 placements per vector.",
+  "level": "Exploration, exhaustive over the 13,471,920-vector product in the thorough tier (quick: a seed-rotated hash slice), 6 placements per vector.",
   "note": "Features are computed from the parsed table by their definition; the internal classifier verdict is the observation point the property names.", "ref": "DESIGN.md 4/C18",
  },
  "C19": {
